@@ -755,12 +755,18 @@ req_sketch<T, C, A>::const_iterator::const_iterator(LevelsIterator begin, Levels
     levels_it_(begin),
     levels_end_(end),
     compactor_it_(begin == end ? nullptr : (*levels_it_).begin())
-{}
+{
+  // skip empty compactors (an empty sketch has one empty compactor)
+  while (levels_it_ != levels_end_ && compactor_it_ == (*levels_it_).end()) {
+    ++levels_it_;
+    if (levels_it_ != levels_end_) compactor_it_ = (*levels_it_).begin();
+  }
+}
 
 template<typename T, typename C, typename A>
 auto req_sketch<T, C, A>::const_iterator::operator++() -> const_iterator& {
   ++compactor_it_;
-  if (compactor_it_ == (*levels_it_).end()) {
+  while (levels_it_ != levels_end_ && compactor_it_ == (*levels_it_).end()) {
     ++levels_it_;
     if (levels_it_ != levels_end_) compactor_it_ = (*levels_it_).begin();
   }
